@@ -82,3 +82,15 @@ package util
 //@ let hasHi = sc(args) || nonnil(args.Before) || nonnil(args.Period) || nonnil(args.Until)
 //@ let hi = ite(sc(args), scHiN(args, fT(now), fy(now), fm(now)), ite(nonnil(args.Before), klog.ddn(args.Before) - 1, ite(nonnil(args.Period), klog.ddn(args.Period.(*period.periodData).until), klog.ddn(args.Until))))
 //@ ensures service.selected(rs, result, hasAt, at, hasLo, lo, hasHi, hi)
+
+// ---------------------------------------------------------------------------------------------
+// prettifier.go — rendering the reported parser errors never crashes (property C06): every accessor is called on an
+// existing error whose line exists and whose position and length are not negative (the invariant of txt.err).
+//@ func PrettifyParsingError
+//@ requires app.perrsOk(err)
+//@ ensures nonnil(result)
+//@ loop 1 invariant true
+
+//@ func PrettifyAppError
+//@ requires nonnil(err)
+//@ ensures nonnil(result)
